@@ -485,6 +485,23 @@ static HeapStats walk_heap(sexp ctx, int phase, bool check_refs) {
             return st;
           }
         }
+#if SEXP_USE_WEAK_REFERENCES
+        // an ephemeron's value is neither a traced nor a weak slot of its type (the collector handles it in its own fixpoint pass):
+        // after a collection it is either cleared together with the key or a live object
+        if (sexp_pointer_tag(x) == SEXP_EPHEMERON) {
+          sexp v = sexp_ephemeron_value(x);
+          if (v && sexp_pointerp(v)) {
+            int s = is_start(v);
+            if (s != 1) {
+              snprintf(msg, sizeof msg, "ephemeron (+%zu in seg %zu, key %s) value -> %s", (size_t)(p - heaps[i]->data), i,
+                       sexp_pointerp(sexp_ephemeron_key(x)) ? "alive" : "immediate",
+                       s == 0 ? "not the start of a live object" : "outside this context's heap");
+              W.violate(s == 0 ? "heap:dangling-ephemeron-value" : "heap:foreign-ref", msg);
+              return st;
+            }
+          }
+        }
+#endif
         if (sexp_type_weak_base(t) > 0) {
           sexp_sint_t wn = sexp_type_num_weak_slots_of_object(t, x);
           sexp* wf = (sexp*)(p + sexp_type_weak_base(t));
